@@ -13,6 +13,26 @@ def input_vars(n):
     return [z3.BitVec("in%d" % k, 32) for k in range(n)]
 
 
+def compile_raw_modules(exe, workdir, stem, text, others, timeout=120):
+    """multi-module program: entry `stem`.ms plus {file name: text}; every module is compiled to raw text on its own (an imported
+    module is otherwise written in binary form).  -> ({module path: {fname: [Instr]}}, entry module path)"""
+    for fn, t in others.items():
+        with open(os.path.join(workdir, fn), "w") as f:
+            f.write(t)
+    mods = {}
+    for fn in list(others) + [stem + ".ms"]:
+        st = fn[:-3]
+        funcs, mp = compile_raw(exe, workdir, st, text if fn == stem + ".ms" else others[fn], timeout)
+        mods[mp] = funcs
+    for fn in others:
+        for ext in (".mmm",):
+            try:
+                os.remove(os.path.join(workdir, fn[:-3] + ext))
+            except OSError:
+                pass
+    return mods, stem + ".mmm"
+
+
 def compile_raw(exe, workdir, stem, text, timeout=120):
     """-> ({fname: [Instr]}, module_path) or raises RuntimeError(compiler output)"""
     src = os.path.join(workdir, stem + ".ms")
@@ -30,11 +50,14 @@ def compile_raw(exe, workdir, stem, text, timeout=120):
     return funcs, stem + ".mmm"
 
 
-def run_real(exe, workdir, stem, text, timeout=60, trace=None, full_stderr=False):
+def run_real(exe, workdir, stem, text, timeout=60, trace=None, full_stderr=False, others=None):
     """trace: a list to receive the per-instruction records of the trace hook (function, ip, frames, scope markers, operand stack)"""
     src = os.path.join(workdir, stem + ".ms")
     with open(src, "w") as f:
         f.write(text)
+    for fn, t in (others or {}).items():
+        with open(os.path.join(workdir, fn), "w") as f:
+            f.write(t)
     env = dict(os.environ, RUST_BACKTRACE="0")
     tf = None
     if trace is not None:
@@ -60,7 +83,7 @@ def run_real(exe, workdir, stem, text, timeout=60, trace=None, full_stderr=False
     return p.returncode, lines, (p.stderr if full_stderr else p.stderr[-400:])
 
 
-def run_pipelines(exe, workdir, stem, text, which=("run", "execute", "transpile"), timeout=60):
+def run_pipelines(exe, workdir, stem, text, which=("run", "execute", "transpile"), timeout=60, others=None):
     """the same source through the CLI's pipelines -> {pipeline: (exit status | None | "compile-fail", stdout BYTES, stderr tail)}
        run       : mscript run x.ms -q                       (bytecode kept in memory)
        execute   : mscript compile x.ms --quick ; mscript execute x.mmm          (binary bytecode file written and loaded)
@@ -70,6 +93,9 @@ def run_pipelines(exe, workdir, stem, text, which=("run", "execute", "transpile"
     src, mmm, tr = (os.path.join(workdir, stem + e) for e in (".ms", ".mmm", ".transpiled.mmm"))
     with open(src, "w") as f:
         f.write(text)
+    for fn, t in (others or {}).items():
+        with open(os.path.join(workdir, fn), "w") as f:
+            f.write(t)
 
     def call(args):
         try:
